@@ -77,6 +77,13 @@ func init() {
 	c15.QuickRuns, c15.ThoroughRuns, c15.RunsPerProc = 12000, 300000, 200
 	c15.Rule = "one evaluation = one simulated run (limit 2-6, 1-8 submitter goroutines, 1-40 microtasks of every priority and variant with run times, errors, panics, repeated done calls; generous or tight max delays; seeded schedule); distinct = distinct hash of configuration + per-submission outcome + observed maximum concurrency; non-trivial = at least 2 goroutine switches or a fault fired"
 	props["C15"] = &c15
+	props["C20"] = &propCfg{
+		Harness: "logsim", Pkgs: "log", QuickRuns: 4000, ThoroughRuns: 150000, RunsPerProc: 100,
+		QuickWall: 70 * time.Second, ThoroughWall: 15 * time.Minute, Level: "exploration",
+		Rule: "one evaluation = one simulated run (1-8 producer goroutines logging up to 3000 lines of all severities from two origin packages, bursts of identical lines, context tracers, a control goroutine changing global and per-package levels, scheduled or free-running writer, slow adapter, Shutdown at a chosen moment; seeded schedule); distinct = distinct hash of configuration and output size; non-trivial = at least 2 goroutine switches",
+		Real: []string{"portbase/log (all of it, instrumented)", "tevino/abool"},
+		Stub: []string{"output adapter (recording, optionally slow)"},
+	}
 }
 
 func env() []string {
